@@ -166,6 +166,7 @@ fn go<'a, T: IteTable<'a, BddPtr<'a>> + Default>(
 impl SubCheckT for Builder {
     type Case = Case;
     const NAME: &'static str = "builder";
+    const REPLAY_ATTEMPTS: u32 = 40;
     const RULE: &'static str = "BDD histories as in C01 with the unique table started at 1..24 slots in most cases; every result is keyed by its oracle truth table and must be pointer-equal (and builder.eq) to the first diagram of that function; every result of a logical op is walked for order/reducedness/high-edge shape; every reachable node is re-requested through get_or_insert at checkpoints and at the end and must come back at the same address. Non-trivial: the table grew at least once and nodes were re-requested after a growth";
     fn cases(tier: Tier) -> u32 {
         tier.pick(3000, 120_000)
